@@ -103,7 +103,7 @@ def main():
         ok_model, out_model = leantools.lake_build("PyhmsVerif")
         if not ok_model:
             broken.append({"kind": "model-build", "detail": out_model[-1500:]})
-        ok_props, out_props = leantools.lake_build(module)
+        ok_props, out_props = leantools.lake_build(module) if theorems else (True, "")
         if not ok_props:
             broken.append({"kind": "proof-build", "module": module, "detail": out_props[-1500:]})
         per, raw = ({}, "")
@@ -116,7 +116,7 @@ def main():
         esc = leantools.grep_forbidden()
         if esc:
             broken.append({"kind": "escape-hatch", "detail": esc[:10]})
-        if ctx.thorough and ok_props:
+        if ctx.thorough and ok_props and theorems:
             import subprocess
 
             p = subprocess.run(["lake", "env", "leanchecker", module], cwd=common.LEAN_DIR, stdout=subprocess.PIPE, stderr=subprocess.STDOUT, timeout=3000)
